@@ -19,6 +19,7 @@ package verifspec
 //@ js prelude.js $decodeRune
 //@ property C14
 //@   param str: str, pos: nat
+//@   returns pair
 //@   requires pos < len(str)
 //@   ensures result._0 == decR(str, pos)
 //@   ensures result._1 == decW(str, pos)
@@ -31,6 +32,7 @@ package verifspec
 //@ js prelude.js $encodeRune
 //@ property C14
 //@   param r: rune32
+//@   returns str
 //@   ensures len(result) == encLen(validRune(r) ? r : 65533)
 //@   ensures decR(result, 0) == (validRune(r) ? r : 65533) && decW(result, 0) == len(result)
 //@   ensures forall(k, 0, len(result), result[k] >= 0 && result[k] <= 255)
